@@ -21,6 +21,7 @@ def c08Op := labelledRenderOp fun k =>
   else if k == "FOR-AS" then some "render-for-iterations-are-not-independent-renders"
   else if k == "STANDALONE" then some "a-rendered-partial-sees-exactly-its-arguments"
   else if k == "NAME-SCOPE" then some "the-partial-name-is-evaluated-in-the-callers-scope"
+  else if k == "REBIND" then some "a-name-rebound-inside-a-partial-is-rebound-completely"
   else if k == "DYN-NAME" then some "a-tag-with-a-variable-name-uses-the-partial-named-now" else none
 /-- `c07r`: a path case labelled by the harness's reference resolution of the path -/
 def c07rOp := labelledRenderOp fun k =>
